@@ -154,6 +154,8 @@ def gen_html():
     need(r"typedefXMLChXalanDOMChar;", _sq(read("Include/PlatformDefinitions.hpp.in")), "XalanDOMChar is XMLCh (16 bits)")
     out += "Definition text_special_list : list N := %s.\nDefinition text_low_memset_bytes : N := %s.\nDefinition dom_char_bytes : N := 2.\nDefinition text_high_from : N := %s.\n" % (nl(tset), m.group(2), m.group(4))
     need(re.escape("initCharsMap();"), _sq(function_body(src, r"FormatterToHTML::FormatterToHTML\s*\(", "FormatterToHTML constructor")), "constructor builds the HTML maps")
+    need(r"FormatterToHTML::FormatterToHTML\(.*?\):FormatterToXML\(writer,s_emptyString,doIndent,indent,encoding,mediaType,doctypeSystem,doctypePublic,false,s_emptyString,OUTPUT_METHOD_HTML,true,theManager\)", _sq(src),
+         "FormatterToHTML constructs its base with OUTPUT_METHOD_HTML (getOutputFormat() decides what accumName does above m_maxCharacter)")
 
     # ---- writeCharacters
     wc = _sq(function_body(src, r"FormatterToHTML::writeCharacters\s*\(\s*const\s+XalanDOMChar\s*\*", "writeCharacters"))
@@ -178,8 +180,9 @@ def gen_html():
          _sq(function_body(xsrc, r"FormatterToXML::writeNumberedEntityReference\s*\(", "writeNumberedEntityReference")), "&#decimal;")
     need(re.escape("if(ch>m_maxCharacter){writeNumberedEntityReference(ch);}else{m_charBuf[m_pos++]=ch;}"), _sq(function_body(xsrc, r"FormatterToXML::accumContentAsChar\s*\(", "accumContentAsChar")),
          "accumContentAsChar: reference above m_maxCharacter")
-    m = need(r"if\(ch>m_maxCharacter\)\{m_charBuf\[m_pos\+\+\]=XalanUnicode::(char\w+);\}else\{m_charBuf\[m_pos\+\+\]=ch;\}", _sq(function_body(xsrc, r"FormatterToXML::accumNameAsChar\s*\(", "accumNameAsChar")),
-             "accumNameAsChar: substitute above m_maxCharacter")
+    # (the xml output method raises an error there since b24ee0f; for every other output format the substitute is written)
+    m = need(r"if\(ch>m_maxCharacter\)\{(?:if\(getOutputFormat\(\)==OUTPUT_METHOD_XML\)\{throwUnrepresentableCharacterException\(ch\);\})?m_charBuf\[m_pos\+\+\]=XalanUnicode::(char\w+);\}else\{m_charBuf\[m_pos\+\+\]=ch;\}",
+             _sq(function_body(xsrc, r"FormatterToXML::accumNameAsChar\s*\(", "accumNameAsChar")), "accumNameAsChar: substitute above m_maxCharacter (html output format)")
     out += "Definition name_substitute : N := %d.\n" % env[m.group(1)]
     ctor = _sq(function_body(xsrc, r"FormatterToXML::FormatterToXML\s*\(", "FormatterToXML constructor"))
     need(re.escape("m_accumNameCharFunction=&FormatterToXML::accumNameAsChar;m_accumContentCharFunction=&FormatterToXML::accumContentAsChar;"), ctor, "narrow encodings use the ...AsChar functions")
